@@ -36,7 +36,7 @@ def run(ctx):
         at = ctx.fn(root).loc
         cv = const_value(ctx, P + cname)
         ctx.add("C15.R1", P + cname + "#value", cv == want, "%s must be %d (found %s)" % (cname, want, cv), ctx.fn(P + cname).loc, sample=cv)
-        de = [e for e in Q.calls(eng, "bincode::deserialize") if e["frame"] == fr.key]
+        de = [e for e in Q.calls(eng, "bincode::deserialize") if e["home"] == fr.key]
         okg = False
         det = "no deserialize call"
         from .. import lin
@@ -116,7 +116,7 @@ def run(ctx):
     valid = any(t.op == "b64_valid" and rel == "eq" and v == 1 for t, rel, v in fs)
     ctx.add("C15.R3", rd + "#decode-error-propagates", valid, "Ok must require that base64 decoding succeeded", at)
     okv = ok_variant(retd, 0)
-    okpt = okv is not None and len(dec) == 1 and Q.contains(okv[2][0], lambda t: t.op == "as_array" and t.args[0] is dec[0])
+    okpt = okv is not None and len(dec) == 1 and Q.contains(okv[2][0], lambda t: t.op in ("as_array", "copied") and t.args[0] is dec[0])    # try_into / copy_from_slice: the whole value
     ctx.add("C15.R3", rd + "#point-is-decoded-bytes", okpt, "the restored point must consist of exactly the decoded bytes; found %s" % S(okv[2][0] if okv else None, 5), at)
     # Evaluation.output uses this adapter pair in both directions: the derived impls call them
     F = ctx.F("A")
